@@ -8,7 +8,7 @@
 From Verif Require Import Lib.Base Model.Streams Proofs.StreamsBase.
 
 Definition wdest_target (E : env) (d : wdest) : option name :=
-  match d with WStdout => None | WFile n => Some n | WCmd c => c_sink (e_spec E c) end.
+  match d with WStdout => None | WFile n => Some n | WCmd c => cmd_target E c end.
 
 Definition tgt_is (o : option name) (t : name) : bool :=
   match o with Some x => x =? t | None => false end.
